@@ -50,8 +50,16 @@ def classify(r, s, cache):
     for x in ssuite._walk(s):
         if isinstance(x, FloatSchema) and x.props.get("value") is Nil:
             mn, mx, pr = x.props.get("min"), x.props.get("max"), x.props.get("precision")
-            if pr is not Nil and (mn is not Nil or mx is not Nil):
-                kinds.add("F06")
+            lo = mn if mn is not Nil else -9.3e18
+            hi = mx if mx is not Nil else 9.3e18
+            if pr is not Nil:
+                # F29: int(bound * 10**precision) overflows (the scaled bound is not finite)
+                try:
+                    scaled = [float(b) * 10 ** pr for b in (lo, hi)]
+                except OverflowError:
+                    scaled = [math.inf]
+                if any(z != z or abs(z) == math.inf for z in scaled):
+                    kinds.add("F29")
             lo = mn if mn is not Nil else -9.3e18
             hi = mx if mx is not Nil else 9.3e18
             try:
@@ -61,10 +69,6 @@ def classify(r, s, cache):
             if not (span == span and abs(span) != math.inf) or lo != lo or hi != hi \
                     or abs(lo) == math.inf or abs(hi) == math.inf:
                 kinds.add("F23")
-            if pr is not Nil and pr > 15:
-                kinds.add("F06")
-        if isinstance(x, StrSchema) and x.props.get("alphabet") == "" and x.props.get("value") is Nil:
-            kinds.add("F07")
     return kinds
 
 
@@ -109,6 +113,7 @@ BOUNDARY = [
     "schema.str.alphabet('').len(0)", "schema.str.len(0)", "schema.float.min(0.5).max(0.5)",
     "schema.float.min(0.15).max(0.35).precision(1)", "schema.float.min(0.57).max(0.58).precision(2)",
     "schema.float.precision(2)", "schema.float.min(-1e308).max(1e308)", "schema.float(2.5).precision(1)",
+    "schema.float.min(1e-09).max(1e+308).precision(2)", "schema.float.min(0.29).precision(1)",
     "schema.any(schema.int, schema.int.min(1).max(0))", "schema.list(schema.int.min(1).max(0))",
     "schema.dict({'a': schema.int, optional('b'): schema.int.min(1).max(0)})",
     "schema.str.regex('[a-c]{2,}x|[^a-z]\\\\d')", "schema.str.regex('^ab?$')", "schema.str.regex('^[^\\\\w]{4,8}$')", "schema.str.regex('^a.{12}b$')", "schema.str.regex('^\\\\w{12}\\\\d{6}$')",
